@@ -58,3 +58,18 @@ Theorem C05_alter_keyword_case : forall a a' norm silent silent',
   parse_lexemes norm silent (Alter.lexemes a) = parse_lexemes norm silent' (Alter.lexemes a').
 Proof. exact KeywordCaseProofs.alter_keyword_case. Qed.
 Print Assumptions C05_alter_keyword_case.
+
+(* ---------- line breaks and indentation between the tokens of a statement ----------------------------------------------------------------
+   Two layouts of a statement over lines (conditions on each line alone, see C03) whose line codes, joined by single blanks, are
+   the same text give the same result: where the line breaks fall does not matter to the line machine (blank lines:
+   C05_blank_line_neutral above; blanks inside the joined text are skipped by the lexer's t_ignore). *)
+Theorem C05_layout_over_lines : forall parse_stmt body1 l1 l1' body2 l2 l2' more1 more2,
+  Forall (fun p => code_line (fst p) (snd p) /\ endswith (code_of (snd p)) ";" = false /\ starts_statement (snd p) = false) body1 ->
+  Forall (fun p => code_line (fst p) (snd p) /\ endswith (code_of (snd p)) ";" = false /\ starts_statement (snd p) = false) body2 ->
+  code_line l1 l1' -> endswith (code_of l1') ";" = true -> starts_statement l1' = false ->
+  code_line l2 l2' -> endswith (code_of l2') ";" = true -> starts_statement l2' = false ->
+  joined (join_codes None body1) (code_of l1') = joined (join_codes None body2) (code_of l2') ->
+  String.eqb (drop_last (joined (join_codes None body1) (code_of l1'))) "" = false ->
+  run_lines parse_stmt lm0 (map fst body1 ++ [l1]) more1 = run_lines parse_stmt lm0 (map fst body2 ++ [l2]) more2.
+Proof. exact layout_invariance. Qed.
+Print Assumptions C05_layout_over_lines.
